@@ -59,6 +59,9 @@ def run(chk, tier, scale=1.0):
     chk.count("histories_on_unsanitized_build", len([1 for k in range(len(jobs)) if k % 4 == 3]))
     res = vcommon.pmap(prun.hist_worker, jobs, chunksize=4)
     prun.fold(chk, "C01", res)
+    # directed: two clients whose ids agree in their low bits, live at the same time (half on the unsanitized build)
+    for rs in vcommon.pmap(pcommon.script_worker, pcommon.collision_jobs(b, chk.seed, PROPS, int((160 if tier == "quick" else 4000) * scale), plain=bplain)):
+        prun.fold(chk, "C01", rs)
     # exhaustive orders of a 7-event script: two instances of one id, queries, replies, disconnect
     perms = list(itertools.permutations(range(len(SCRIPT))))
     if tier == "quick":
